@@ -20,8 +20,8 @@ P = {
                  'classification file',
     'drivers': [
         {'name': 'mapscan', 'n': {'quick': 1, 'thorough': 1}},
-        {'name': 'replicas', 'n': {'quick': 40, 'thorough': 600}, 'shrink_field': 'blocks', 'batch': 12, 'timeout': 3000},
-        {'name': 'registries', 'n': {'quick': 160, 'thorough': 4000}, 'batch': 2000},
+        {'name': 'replicas', 'n': {'quick': 40, 'thorough': 400}, 'shrink_field': 'blocks', 'batch': 12, 'timeout': 3000},
+        {'name': 'registries', 'n': {'quick': 160, 'thorough': 3000}, 'batch': 2000},
         {'name': 'upgrade175', 'n': {'quick': 0, 'thorough': 3}, 'timeout': 3000},
     ],
     'coq_header': 'From HV Require Import App.DeterminismModel.\nFrom Coq Require Import ZArith NArith List.\nImport ListNotations.',
